@@ -141,6 +141,14 @@ def run(tier, seed):
     base = [(0.0, 60.0), (1.0, 62.0), (2.0, 64.0)]
     inputs["pattern"].append(("between-thresholds", ([[base, [(o + 8, m) for o, m in base]]],
                                                     [[base[:2], [(o + 8, m) for o, m in base[:2]]], [[(30.0, 70.0)]]])))
+    # boundaries 0.75 s and 1.0 s away from the reference's: between the forced 0.5 s window and a user's window = 1.0
+    inputs["segment"].append(("between-windows", (np.array([[0.0, 2.0], [2.0, 4.0], [4.0, 7.0]]), ["a", "b", "a"],
+                                                 np.array([[0.0, 2.75], [2.75, 5.0], [5.0, 7.0]]), ["x", "y", "x"])))
+    # note offsets between offset_ratio 0.2 (default) and 0.5 (user value) of the reference duration
+    inputs["transcription"].append(("between-offset-ratios", (np.array([[0.0, 1.0], [2.0, 3.0], [4.0, 4.5]]), np.array([440.0, 220.0, 330.0]),
+                                                             np.array([[0.0, 1.375], [2.0, 3.125], [4.0, 4.5]]), np.array([440.0, 220.0, 330.0]))))
+    inputs["transcription_velocity"].append(("between-offset-ratios", (np.array([[0.0, 1.0], [2.0, 3.0], [4.0, 4.5]]), np.array([440.0, 220.0, 330.0]), np.array([60.0, 80.0, 100.0]),
+                                                                      np.array([[0.0, 1.375], [2.0, 3.125], [4.0, 4.5]]), np.array([440.0, 220.0, 330.0]), np.array([62.0, 79.0, 98.0]))))
     n_calls = 0
     for row in rows:
         task = row["task"]
